@@ -33,6 +33,13 @@ fn spec_for(prop: &str, tier: Tier) -> Option<CheckSpec> {
                     move || c14::run_c14(&sc),
                 ));
             }
+            scenarios.push(Scenario::new(
+                "real-runtime-seam",
+                "no hook installed: SyncWrapper on tokio's real blocking pool (current-thread and multi-thread runtime) x {closures complete, a closure panics, dropped right after creation}; the thread that creates the value, runs the closures and destroys it is never the thread that awaits and drops the wrapper; one construction, one destruction, Panic reported and poisoned",
+                0,
+                0,
+                c14::run_c14_real_runtime,
+            ));
             rule = "stateless DFS over operation histories (free choices), schedules of the task and blocking-closure actors (preemption bound p) and cancellations of interact futures (fault bound f); non-trivial = used a preemption or fault".into();
             assumptions = vec![
                 "spawn_blocking is replaced by the harness: closures become coroutine actors that may start at any time and in any order (tokio's blocking pool is trusted to behave no worse)".into(),
